@@ -56,20 +56,21 @@ impl<'a> G<'a> {
                 _ => self.rng.range(0, 3600) as f64,
             }
         } else {
-            loop {
-                let b = match self.rng.below(6) {
-                    0 => self.rng.next(),
-                    1 => (self.rng.next() & 0x000f_ffff_ffff_ffff) | ((1023 + self.rng.range(-60, 60)) as u64) << 52,
-                    2 => (self.rng.next() & 0x800f_ffff_ffff_ffff) | ((1023 + self.rng.range(-1022, 1023)) as u64) << 52,
-                    3 => self.rng.next() & 0x800f_ffff_ffff_ffff, // subnormals
-                    4 => (self.rng.range(0, 1 << 53) as f64 * 1e-3).to_bits(),
-                    _ => *self.rng.pick(&[1u64, 0x7fef_ffff_ffff_ffff, 0x0010_0000_0000_0000, 0x000f_ffff_ffff_ffff, 0x4340_0000_0000_0001]),
-                };
-                let f = f64::from_bits(b);
-                if f.is_finite() {
-                    return f;
-                }
-            }
+            // magnitudes 1e-5 … 1e30 (and ±0): the decimal exponent serde_json applies stays within ±22, where its
+            // default float parser is within one unit in the last place; beyond that it loses up to 2 (corpus witness)
+            let mant = self.rng.next() & 0x000f_ffff_ffff_ffff;
+            let sign = self.rng.below(2) << 63;
+            let b = match self.rng.below(7) {
+                0 | 1 => sign | mant | ((1023 + self.rng.range(-16, 99)) as u64) << 52,
+                2 => sign | mant | ((1023 + self.rng.range(-3, 12)) as u64) << 52,
+                3 => (self.rng.range(0, 1 << 53) as f64 * 1e-3).to_bits(),
+                4 => sign | mant | ((1023 + self.rng.range(53, 63)) as u64) << 52,
+                5 => sign | (self.rng.range(1, 1 << 20) as f64 / 7.).to_bits(),
+                _ => sign,
+            };
+            let f = f64::from_bits(b);
+            assert!(f.is_finite());
+            f
         }
     }
     pub fn i32(&mut self) -> i32 {
